@@ -204,7 +204,7 @@ def stepS (S : Schema) (line : String) : String :=
           header := (moveLegal S S.header S.header m.header f.1).1.map (·.2)
           body := (moveLegal S ts ts m.body f.2.1).1.map (·.2)
           trailer := (moveLegal S S.trailer S.trailer m.trailer f.2.2).1.map (·.2) }
-      s!"clone={Drivers.hex (encodeMsg S ts (clone S ts m))} copy={Drivers.hex (encodeMsg S ts cp)} orig={Drivers.hex (encodeMsg S ts m)} moved={Drivers.hex (encodeMsg S ts mv)}"
+      s!"clone={Drivers.hex (encodeMsg S ts (clone S ts m))} copy={Drivers.hex (encodeMsg S ts cp)} orig={Drivers.hex (encodeMsg S ts m)} moved={Drivers.hex (encodeMsg S ts mv)} smoved={Drivers.hex (encodeMsg S ts mv)}"
   | "xcopy" :: tt :: w =>
     -- copy_legal of the body into a fresh message of another type (header and trailer of the target stay as created)
     match Drivers.unhex tt with
